@@ -1,4 +1,5 @@
 import Hdc.Lemmas.GenNum
+import Hdc.Gen.NumBrentq
 import Hdc.Props.C07
 import Std.Tactic.Do
 /-
@@ -23,8 +24,6 @@ this file; positions of `for … in range(a, b)` come from `pyn_ranges`, reads `
 -/
 namespace Hdc.GenNum
 open Hdc Hdc.Gen.NumKernels Std.Do
-open Hdc.Ws2dGen (av Holds)
-open Hdc.Ws2d (fnl)
 open Hdc.GenKernels (gv lv gv_toArray)
 
 set_option mvcgen.warning false
